@@ -1,5 +1,683 @@
-//! xmlspecgen: an independent generator of Roblox XML documents written from /repo/docs/xml.md only.
+//! xmlspecgen: an INDEPENDENT writer of Roblox XML documents, written from /repo/docs/xml.md only (it shares no code
+//! with rbx_xml: no XmlType impls, no xml-rs).  It renders a logical DOM as text while exercising the freedoms the
+//! document leaves to a writer: UUID-style referents, any property order, indentation, Meta / External elements,
+//! extra attributes on `roblox`, forward references, ProtectedString, CDATA or escaped text, line-wrapped base64,
+//! `url` / `null` content forms, alternative float spellings (`+INF`, exponents, leading `+`, trailing `.0`),
+//! the SharedStrings dictionary before or after the Items, self-closing empty elements, an XML declaration, comments
+//! between elements.  C05 reader direction: `rbx_xml::from_reader` must decode such a document to the DOM it describes.
 use crate::rng::Rng;
-pub fn gen_foreign_case(_rng: &mut Rng) -> Vec<String> {
-    vec!["kind text".into(), "opt dec IgnoreUnknown".into(), "text -".into()]
+use crate::val::{self};
+use crate::xmlchannel::gen_xml_text;
+use crate::xmlfile::*;
+use crate::xmloracle::{cmp_dom, decoded_order, ExpNode};
+use rbx_reflection::{DataType, PropertyKind, PropertySerialization};
+use rbx_types::*;
+use std::collections::{BTreeMap, HashMap};
+
+// ------------------------------------------------------------------------------------------ rendering (docs/xml.md)
+
+pub struct Style {
+    pub indent: u64,          // 0 none, 1 tabs + \n, 2 two spaces + \n, 3 \r\n + tabs
+    pub cdata_pct: u64,       // strings as CDATA
+    pub wrap: usize,          // base64 line length, 0 = one line
+    pub alt_floats: bool,
+    pub self_close: bool,
+    pub uuid_referents: bool,
+    pub comments: bool,
+}
+
+fn esc_text(s: &str) -> String {
+    s.replace('&', "&amp;").replace('<', "&lt;").replace('>', "&gt;")
+}
+fn esc_attr(s: &str) -> String {
+    esc_text(s).replace('"', "&quot;").replace('\n', "&#10;").replace('\r', "&#13;").replace('\t', "&#9;")
+}
+
+const B64: &[u8; 64] = b"ABCDEFGHIJKLMNOPQRSTUVWXYZabcdefghijklmnopqrstuvwxyz0123456789+/";
+/// RFC 2045 base64
+pub fn base64(data: &[u8], wrap: usize, crlf: bool) -> String {
+    let mut out = String::new();
+    for c in data.chunks(3) {
+        let b = [c[0], *c.get(1).unwrap_or(&0), *c.get(2).unwrap_or(&0)];
+        out.push(B64[(b[0] >> 2) as usize] as char);
+        out.push(B64[(((b[0] & 3) << 4) | (b[1] >> 4)) as usize] as char);
+        out.push(if c.len() > 1 { B64[(((b[1] & 15) << 2) | (b[2] >> 6)) as usize] as char } else { '=' });
+        out.push(if c.len() > 2 { B64[(b[2] & 63) as usize] as char } else { '=' });
+    }
+    if wrap == 0 || out.len() <= wrap {
+        return out;
+    }
+    let nl = if crlf { "\r\n" } else { "\n" };
+    out.as_bytes().chunks(wrap).map(|c| std::str::from_utf8(c).unwrap()).collect::<Vec<_>>().join(nl)
+}
+
+pub struct Renderer<'a> {
+    pub rng: &'a mut Rng,
+    pub st: Style,
+    pub out: String,
+    pub depth: usize,
+}
+
+impl<'a> Renderer<'a> {
+    fn nl(&mut self) {
+        match self.st.indent {
+            1 => {
+                self.out.push('\n');
+                for _ in 0..self.depth {
+                    self.out.push('\t');
+                }
+            }
+            2 => {
+                self.out.push('\n');
+                for _ in 0..self.depth {
+                    self.out.push_str("  ");
+                }
+            }
+            3 => {
+                self.out.push_str("\r\n");
+                for _ in 0..self.depth {
+                    self.out.push('\t');
+                }
+            }
+            _ => {}
+        }
+        if self.st.comments && self.rng.chance(5) {
+            self.out.push_str("<!-- a comment -->");
+        }
+    }
+    pub fn open(&mut self, tag: &str, attrs: &[(&str, &str)]) {
+        self.nl();
+        self.out.push('<');
+        self.out.push_str(tag);
+        for (k, v) in attrs {
+            self.out.push_str(&format!(" {k}=\"{}\"", esc_attr(v)));
+        }
+        self.out.push('>');
+        self.depth += 1;
+    }
+    pub fn close(&mut self, tag: &str) {
+        self.depth -= 1;
+        self.nl();
+        self.out.push_str(&format!("</{tag}>"));
+    }
+    /// an element whose content is character data (no whitespace may be added inside)
+    pub fn leaf(&mut self, tag: &str, attrs: &[(&str, &str)], text: &str, may_cdata: bool) {
+        self.nl();
+        self.out.push('<');
+        self.out.push_str(tag);
+        for (k, v) in attrs {
+            self.out.push_str(&format!(" {k}=\"{}\"", esc_attr(v)));
+        }
+        if text.is_empty() && self.st.self_close && self.rng.chance(50) {
+            self.out.push_str("/>");
+            return;
+        }
+        self.out.push('>');
+        let only_ws = !text.is_empty() && text.chars().all(|c| matches!(c, ' ' | '\t' | '\n' | '\r'));
+        let outer_ws = text.starts_with(|c: char| c.is_whitespace()) || text.ends_with(|c: char| c.is_whitespace());
+        if may_cdata && !text.contains("]]>") && (only_ws || outer_ws || self.rng.chance(self.st.cdata_pct)) {
+            // "Whitespace MUST be preserved": CDATA keeps text that an XML reader would otherwise treat as ignorable
+            self.out.push_str(&format!("<![CDATA[{text}]]>"));
+        } else {
+            self.out.push_str(&esc_text(text).replace('\r', "&#13;"));
+        }
+        self.out.push_str(&format!("</{tag}>"));
+    }
+    pub fn float32(&mut self, x: f32) -> String {
+        self.float(x as f64, format!("{}", x), format!("{:e}", x))
+    }
+    fn float(&mut self, x: f64, plain: String, exp: String) -> String {
+        if x.is_nan() {
+            return "NAN".into();
+        }
+        if x == f64::INFINITY {
+            return if self.st.alt_floats && self.rng.chance(50) { "+INF".into() } else { "INF".into() };
+        }
+        if x == f64::NEG_INFINITY {
+            return "-INF".into();
+        }
+        if !self.st.alt_floats {
+            return plain;
+        }
+        match self.rng.below(6) {
+            0 => exp,
+            1 => exp.replace('e', "E"),
+            2 if !plain.starts_with('-') => format!("+{plain}"),
+            3 if !plain.contains('.') => format!("{plain}.0"),
+            4 if !plain.contains('.') => format!("{plain}."),
+            _ => plain,
+        }
+    }
+    pub fn float64(&mut self, x: f64) -> String {
+        self.float(x, format!("{}", x), format!("{:e}", x))
+    }
+    fn f32_leaf(&mut self, tag: &str, x: f32) {
+        let t = self.float32(x);
+        self.leaf(tag, &[], &t, false);
+    }
+    fn v3(&mut self, v: &Vector3) {
+        self.f32_leaf("X", v.x);
+        self.f32_leaf("Y", v.y);
+        self.f32_leaf("Z", v.z);
+    }
+    fn cframe(&mut self, c: &CFrame) {
+        self.v3(&c.position);
+        let o = &c.orientation;
+        for (t, x) in [("R00", o.x.x), ("R01", o.x.y), ("R02", o.x.z), ("R10", o.y.x), ("R11", o.y.y), ("R12", o.y.z), ("R20", o.z.x), ("R21", o.z.y), ("R22", o.z.z)] {
+            self.f32_leaf(t, x);
+        }
+    }
+    fn content_child(&mut self, uri: &str, tag: &str) {
+        if uri.is_empty() {
+            // "MUST include an opening and closing tag", "MUST be empty"
+            self.nl();
+            self.out.push_str("<null></null>");
+        } else {
+            self.leaf(tag, &[], uri, true);
+        }
+    }
+
+    /// one type element (docs/xml.md "Type Elements"); `referent_of` gives the referent string of a label,
+    /// `md5_of` the dictionary key of a shared string
+    pub fn property(&mut self, name: &str, v: &Variant, referent_of: &dyn Fn(Ref) -> Option<String>, md5_of: &dyn Fn(&[u8]) -> String) -> bool {
+        let a = [("name", name)];
+        match v {
+            Variant::Axes(x) => {
+                self.open("Axes", &a);
+                self.leaf("axes", &[], &x.bits().to_string(), false);
+                self.close("Axes");
+            }
+            Variant::BinaryString(b) => {
+                let t = base64(b.as_ref(), self.st.wrap, self.st.indent == 3);
+                self.leaf("BinaryString", &a, &t, false);
+            }
+            Variant::Tags(t) => {
+                let t = base64(&t.encode(), self.st.wrap, false);
+                self.leaf("BinaryString", &a, &t, false);
+            }
+            Variant::Bool(b) => self.leaf("bool", &a, if *b { "true" } else { "false" }, false),
+            Variant::BrickColor(b) => self.leaf("int", &a, &(*b as u16).to_string(), false),
+            Variant::Color3(c) => {
+                self.open("Color3", &a);
+                self.f32_leaf("R", c.r);
+                self.f32_leaf("G", c.g);
+                self.f32_leaf("B", c.b);
+                self.close("Color3");
+            }
+            Variant::Color3uint8(c) => {
+                // "The upper 8 bits of the value SHOULD be filled with FF"
+                let hi: u32 = if self.rng.chance(80) { 0xFF00_0000 } else { 0 };
+                let p = hi | ((c.r as u32) << 16) | ((c.g as u32) << 8) | c.b as u32;
+                self.leaf("Color3uint8", &a, &p.to_string(), false);
+            }
+            Variant::ColorSequence(s) => {
+                let mut t = String::new();
+                for k in &s.keypoints {
+                    for x in [k.time, k.color.r, k.color.g, k.color.b] {
+                        t.push_str(&self.float32(x));
+                        t.push(' ');
+                    }
+                    t.push_str("0 ");
+                }
+                self.leaf("ColorSequence", &a, &t, false);
+            }
+            Variant::NumberSequence(s) => {
+                let mut t = String::new();
+                for k in &s.keypoints {
+                    for x in [k.time, k.value, k.envelope] {
+                        t.push_str(&self.float32(x));
+                        t.push(' ');
+                    }
+                }
+                self.leaf("NumberSequence", &a, &t, false);
+            }
+            Variant::NumberRange(r) => {
+                let t = format!("{} {} ", self.float32(r.min), self.float32(r.max));
+                self.leaf("NumberRange", &a, &t, false);
+            }
+            Variant::Content(c) => {
+                self.open("Content", &a);
+                match c.value() {
+                    ContentType::Uri(u) => self.leaf("uri", &[], u, true),
+                    ContentType::Object(r) => {
+                        let t = referent_of(*r).unwrap_or_else(|| "null".into());
+                        self.leaf("Ref", &[], &t, false);
+                    }
+                    _ => {
+                        self.nl();
+                        self.out.push_str("<null></null>");
+                    }
+                }
+                self.close("Content");
+            }
+            Variant::ContentId(c) => {
+                self.open("ContentId", &a);
+                self.content_child(c.as_str(), "url");
+                self.close("ContentId");
+            }
+            Variant::CFrame(c) => {
+                self.open("CoordinateFrame", &a);
+                self.cframe(c);
+                self.close("CoordinateFrame");
+            }
+            Variant::OptionalCFrame(c) => {
+                self.open("OptionalCoordinateFrame", &a);
+                if let Some(c) = c {
+                    self.open("CFrame", &[]);
+                    self.cframe(c);
+                    self.close("CFrame");
+                }
+                self.close("OptionalCoordinateFrame");
+            }
+            Variant::Float64(x) => {
+                let t = self.float64(*x);
+                self.leaf("double", &a, &t, false);
+            }
+            Variant::Float32(x) => {
+                let t = self.float32(*x);
+                self.leaf("float", &a, &t, false);
+            }
+            Variant::Faces(x) => {
+                self.open("Faces", &a);
+                self.leaf("faces", &[], &x.bits().to_string(), false);
+                self.close("Faces");
+            }
+            Variant::Font(f) => {
+                self.open("Font", &a);
+                self.open("Family", &[]);
+                self.content_child(&f.family, "url");
+                self.close("Family");
+                self.leaf("Weight", &[], &f.weight.as_u16().to_string(), false);
+                self.leaf("Style", &[], if matches!(f.style, FontStyle::Italic) { "Italic" } else { "Normal" }, false);
+                if let Some(c) = &f.cached_face_id {
+                    self.open("CachedFaceId", &[]);
+                    self.content_child(c, "url");
+                    self.close("CachedFaceId");
+                }
+                self.close("Font");
+            }
+            Variant::Int32(x) => self.leaf("int", &a, &x.to_string(), false),
+            Variant::Int64(x) => self.leaf("int64", &a, &x.to_string(), false),
+            Variant::PhysicalProperties(p) => {
+                self.open("PhysicalProperties", &a);
+                match p {
+                    PhysicalProperties::Custom(c) => {
+                        self.leaf("CustomPhysics", &[], "true", false);
+                        self.f32_leaf("Density", c.density);
+                        self.f32_leaf("Friction", c.friction);
+                        self.f32_leaf("Elasticity", c.elasticity);
+                        self.f32_leaf("FrictionWeight", c.friction_weight);
+                        self.f32_leaf("ElasticityWeight", c.elasticity_weight);
+                    }
+                    _ => self.leaf("CustomPhysics", &[], "false", false),
+                }
+                self.close("PhysicalProperties");
+            }
+            Variant::Ray(r) => {
+                self.open("Ray", &a);
+                self.open("origin", &[]);
+                self.v3(&r.origin);
+                self.close("origin");
+                self.open("direction", &[]);
+                self.v3(&r.direction);
+                self.close("direction");
+                self.close("Ray");
+            }
+            Variant::Rect(r) => {
+                self.open("Rect2D", &a);
+                self.open("min", &[]);
+                self.f32_leaf("X", r.min.x);
+                self.f32_leaf("Y", r.min.y);
+                self.close("min");
+                self.open("max", &[]);
+                self.f32_leaf("X", r.max.x);
+                self.f32_leaf("Y", r.max.y);
+                self.close("max");
+                self.close("Rect2D");
+            }
+            Variant::Ref(r) => {
+                let t = if r.is_none() { "null".to_string() } else { referent_of(*r).unwrap_or_else(|| "RBXFFFFFFFFFFFFFFFFFFFFFFFFFFFFFFFF".into()) };
+                self.leaf("Ref", &a, &t, false);
+            }
+            Variant::SharedString(s) => {
+                let t = md5_of(s.data());
+                self.leaf("SharedString", &a, &t, false);
+            }
+            Variant::String(s) => {
+                let tag = if self.rng.chance(25) { "ProtectedString" } else { "string" };
+                self.leaf(tag, &a, s, true);
+            }
+            Variant::Enum(e) => self.leaf("token", &a, &e.to_u32().to_string(), false),
+            Variant::UDim(u) => {
+                self.open("UDim", &a);
+                self.f32_leaf("S", u.scale);
+                self.leaf("O", &[], &u.offset.to_string(), false);
+                self.close("UDim");
+            }
+            Variant::UDim2(u) => {
+                self.open("UDim2", &a);
+                self.f32_leaf("XS", u.x.scale);
+                self.leaf("XO", &[], &u.x.offset.to_string(), false);
+                self.f32_leaf("YS", u.y.scale);
+                self.leaf("YO", &[], &u.y.offset.to_string(), false);
+                self.close("UDim2");
+            }
+            Variant::UniqueId(u) => {
+                // 16 bytes in hexadecimal: Random (u64), Time (u32), Index (u32)
+                let t = format!("{:016x}{:08x}{:08x}", u.random() as u64, u.time(), u.index());
+                self.leaf("UniqueId", &a, &t, false);
+            }
+            Variant::Vector2(v) => {
+                self.open("Vector2", &a);
+                self.f32_leaf("X", v.x);
+                self.f32_leaf("Y", v.y);
+                self.close("Vector2");
+            }
+            Variant::Vector3(v) => {
+                self.open("Vector3", &a);
+                self.v3(v);
+                self.close("Vector3");
+            }
+            Variant::Vector3int16(v) => {
+                self.open("Vector3int16", &a);
+                self.leaf("X", &[], &v.x.to_string(), false);
+                self.leaf("Y", &[], &v.y.to_string(), false);
+                self.leaf("Z", &[], &v.z.to_string(), false);
+                self.close("Vector3int16");
+            }
+            Variant::SecurityCapabilities(_) | Variant::Vector2int16(_) | Variant::Attributes(_) | Variant::MaterialColors(_) => return false, // not described by docs/xml.md
+            _ => return false,
+        }
+        true
+    }
+}
+
+pub struct DocOpts {
+    pub shuffle_props: bool,
+    pub meta: bool,
+    pub external: bool,
+    pub studio_attrs: bool,
+    pub decl: bool,
+    pub dict_first: bool,
+}
+
+/// the whole document for a logical forest (all top-level nodes are written)
+pub fn render(rng: &mut Rng, f: &Forest, st: Style, o: &DocOpts) -> String {
+    // referents: unique, never `null`
+    let mut referents: HashMap<u64, String> = HashMap::new();
+    for n in &f.nodes {
+        let r = if st.uuid_referents {
+            format!("RBX{:016X}{:016X}", rng.next(), n.label)
+        } else {
+            match rng.below(3) {
+                0 => format!("{}", 1000 - n.label as i64),
+                1 => format!("ref-{}", n.label),
+                _ => format!("{:x}", n.label * 7919),
+            }
+        };
+        referents.insert(n.label, r);
+    }
+    let syn: HashMap<Ref, u64> = (1..=(f.nodes.len() as u64 + 64)).map(|l| (val::synthetic_ref(l), l)).collect();
+    let referent_of = |r: Ref| syn.get(&r).and_then(|l| referents.get(l)).cloned();
+    // SharedString keys: "does not have to be the MD5 hash"
+    let mut keys: BTreeMap<Vec<u8>, String> = BTreeMap::new();
+    for n in &f.nodes {
+        for (_, v) in &n.props {
+            if let Variant::SharedString(s) = v {
+                let k = keys.len();
+                keys.entry(s.data().to_vec()).or_insert_with(|| base64(format!("key{k:013}").as_bytes(), 0, false));
+            }
+        }
+    }
+    let keys2 = keys.clone();
+    let md5_of = move |c: &[u8]| keys2.get(c).cloned().unwrap_or_default();
+
+    let mut r = Renderer { rng, st, out: String::new(), depth: 0 };
+    if o.decl {
+        r.out.push_str("<?xml version=\"1.0\" encoding=\"utf-8\"?>");
+        if r.st.indent == 0 {
+            r.out.push('\n');
+        }
+    }
+    let mut root_attrs: Vec<(&str, &str)> = Vec::new();
+    if o.studio_attrs {
+        root_attrs.push(("xmlns:xmime", "http://www.w3.org/2005/05/xmlmime"));
+        root_attrs.push(("xmlns:xsi", "http://www.w3.org/2001/XMLSchema-instance"));
+        root_attrs.push(("xsi:noNamespaceSchemaLocation", "http://www.roblox.com/roblox.xsd"));
+    }
+    root_attrs.push(("version", "4"));
+    r.open("roblox", &root_attrs);
+    if o.meta {
+        r.leaf("Meta", &[("name", "ExplicitAutoJoints")], "true", false);
+    }
+    if o.external {
+        r.leaf("External", &[], "null", false);
+        r.leaf("External", &[], "nil", false);
+    }
+    let dict = |r: &mut Renderer| {
+        if !keys.is_empty() {
+            r.open("SharedStrings", &[]);
+            for (content, key) in &keys {
+                let t = base64(content, r.st.wrap, false);
+                r.leaf("SharedString", &[("md5", key)], &t, false);
+            }
+            r.close("SharedStrings");
+        }
+    };
+    if o.dict_first {
+        dict(&mut r);
+    }
+    fn item(r: &mut Renderer, f: &Forest, n: &Node, referents: &HashMap<u64, String>, referent_of: &dyn Fn(Ref) -> Option<String>, md5_of: &dyn Fn(&[u8]) -> String, shuffle: bool) {
+        let referent = &referents[&n.label];
+        if r.rng.chance(50) {
+            r.open("Item", &[("class", &n.class), ("referent", referent)]);
+        } else {
+            r.open("Item", &[("referent", referent), ("class", &n.class)]);
+        }
+        let mut props: Vec<(String, Variant)> = n.props.clone();
+        props.push(("Name".into(), Variant::String(n.name.clone())));
+        if shuffle {
+            r.rng.shuffle(&mut props);
+        }
+        r.open("Properties", &[]);
+        for (k, v) in &props {
+            r.property(k, v, referent_of, md5_of);
+        }
+        r.close("Properties");
+        for c in f.nodes.iter().filter(|c| c.parent == n.label) {
+            item(r, f, c, referents, referent_of, md5_of, shuffle);
+        }
+        r.close("Item");
+    }
+    for n in f.nodes.iter().filter(|n| n.parent == 0) {
+        item(&mut r, f, n, &referents, &referent_of, &md5_of, o.shuffle_props);
+    }
+    if !o.dict_first {
+        dict(&mut r);
+    }
+    r.close("roblox");
+    if r.rng.chance(30) {
+        r.out.push('\n');
+    }
+    r.out
+}
+
+// ------------------------------------------------------------------------------------------ logical DOMs
+
+/// types docs/xml.md describes
+const SPEC_TYPES: [VariantType; 34] = [
+    VariantType::Axes, VariantType::BinaryString, VariantType::Bool, VariantType::BrickColor, VariantType::Color3, VariantType::Color3uint8,
+    VariantType::ColorSequence, VariantType::Content, VariantType::ContentId, VariantType::CFrame, VariantType::Float64, VariantType::Faces,
+    VariantType::Float32, VariantType::Font, VariantType::Int32, VariantType::Int64, VariantType::NumberRange, VariantType::NumberSequence,
+    VariantType::OptionalCFrame, VariantType::PhysicalProperties, VariantType::Ray, VariantType::Rect, VariantType::Ref, VariantType::SharedString,
+    VariantType::String, VariantType::Enum, VariantType::UDim, VariantType::UDim2, VariantType::UniqueId, VariantType::Vector2, VariantType::Vector3,
+    VariantType::Vector3int16, VariantType::Tags, VariantType::Bool,
+];
+
+fn spec_value(rng: &mut Rng, ty: VariantType, n: u64) -> Variant {
+    let mut v = crate::xmlgen::gen_value(rng, ty, n, true);
+    // documented constraints on values
+    match &mut v {
+        Variant::ColorSequence(s) => {
+            while s.keypoints.len() < 2 {
+                s.keypoints.push(ColorSequenceKeypoint::new(1.0, Color3::new(0.5, 0.25, 1.0)));
+            }
+            s.keypoints[0].time = 0.0;
+            let k = s.keypoints.len();
+            s.keypoints[k - 1].time = 1.0;
+        }
+        Variant::NumberSequence(s) => {
+            while s.keypoints.len() < 2 {
+                s.keypoints.push(NumberSequenceKeypoint::new(1.0, 2.0, 0.0));
+            }
+            s.keypoints[0].time = 0.0;
+            let k = s.keypoints.len();
+            s.keypoints[k - 1].time = 1.0;
+        }
+        Variant::Content(c) => {
+            if let ContentType::Object(_) = c.value() {
+                v = Variant::Content(Content::none());
+            }
+        }
+        Variant::Ref(r) => {
+            // a Ref is empty or names an Item of the file
+            let ok = (1..=n).any(|l| val::synthetic_ref(l) == *r);
+            if !ok {
+                v = Variant::Ref(Ref::none());
+            }
+        }
+        _ => {}
+    }
+    v
+}
+
+/// a logical DOM over database classes whose properties are spelled the way Roblox serializes them
+pub fn gen_logical(rng: &mut Rng) -> Forest {
+    let n = rng.range(1, 7);
+    let mut f = Forest::default();
+    for i in 1..=n {
+        let parent = if i == 1 || rng.chance(35) { 0 } else { rng.range(1, i - 1) };
+        let class = rng.pick(&crate::xmlgen::KNOWN_CLASSES).to_string();
+        let name = gen_xml_text(rng);
+        let mut props: Vec<(String, Variant)> = Vec::new();
+        let descs: Vec<_> = class_props(&class)
+            .into_iter()
+            .filter(|p| match &p.kind {
+                PropertyKind::Canonical { serialization: PropertySerialization::Serializes } => p.name != "Name",
+                _ => false,
+            })
+            .filter(|p| match &p.data_type {
+                DataType::Value(t) => SPEC_TYPES.contains(t),
+                DataType::Enum(_) => true,
+                _ => false,
+            })
+            .collect();
+        for _ in 0..rng.below(7) {
+            if descs.is_empty() {
+                break;
+            }
+            let p = *rng.pick(&descs);
+            let ty = data_type_vt(&p.data_type);
+            props.push((p.name.to_string(), spec_value(rng, ty, n)));
+        }
+        if rng.chance(25) {
+            // a property the database does not know: dropped by a reader with default options
+            let ty = *rng.pick(&SPEC_TYPES);
+            props.push((rng.pick(&["FutureProperty", "zzNew", "Another"]).to_string(), spec_value(rng, ty, n)));
+        }
+        let mut seen = std::collections::BTreeSet::new();
+        props.retain(|(k, _)| seen.insert(k.clone()));
+        f.nodes.push(Node { label: i, parent, class, name, props });
+    }
+    f
+}
+
+pub fn gen_style(rng: &mut Rng) -> (Style, DocOpts) {
+    (
+        Style {
+            indent: rng.below(4),
+            cdata_pct: *rng.pick(&[0, 30, 100]),
+            wrap: *rng.pick(&[0, 72, 76, 16]),
+            alt_floats: rng.chance(60),
+            self_close: rng.chance(50),
+            uuid_referents: rng.chance(70),
+            comments: rng.chance(30),
+        },
+        DocOpts { shuffle_props: rng.chance(80), meta: rng.chance(50), external: rng.chance(50), studio_attrs: rng.chance(50), decl: rng.chance(30), dict_first: rng.chance(40) },
+    )
+}
+
+pub fn gen_foreign_case(rng: &mut Rng) -> Vec<String> {
+    let f = gen_logical(rng);
+    let (st, o) = gen_style(rng);
+    let text = render(rng, &f, st, &o);
+    let dec = if rng.chance(75) { "IgnoreUnknown" } else { "ReadUnknown" };
+    text_case_lines(text.as_bytes(), dec, Some(&f), &[("stream".into(), "foreign".into())])
+}
+
+// ------------------------------------------------------------------------------------------ C05 reader oracle
+
+pub fn check_foreign(id: &str, lines: &[String], d: &Dec, dec: &str, stats: &mut BTreeMap<String, u64>, out: &mut Vec<String>) {
+    let f = match parse_forest(lines, "expect ") {
+        Ok(f) => f,
+        Err(_) => return,
+    };
+    *stats.entry("c05_reader_checked".into()).or_insert(0) += 1;
+    let dd = match d {
+        Dec::Ok(dd) => dd,
+        Dec::Err(m) => {
+            let neg = f.nodes.iter().any(|n| n.props.iter().any(|(_, v)| matches!(v, Variant::UniqueId(u) if u.random() < 0)));
+            let key = if neg && decode_error_class(m) == "type" { "uniqueid-negative" } else { "reader-rejects" };
+            out.push(format!("{id} C05 {key} a spec-conformant document is rejected: {}", m.chars().take(200).collect::<String>()));
+            return;
+        }
+        Dec::Panic(m) => {
+            out.push(format!("{id} C05 reader-panics a spec-conformant document makes the reader panic: {}", m.chars().take(200).collect::<String>()));
+            return;
+        }
+    };
+    // pre-order of the logical forest
+    let mut order: Vec<u64> = Vec::new();
+    fn walk(f: &Forest, l: u64, out: &mut Vec<u64>) {
+        for n in f.nodes.iter().filter(|n| n.parent == l) {
+            out.push(n.label);
+            walk(f, n.label, out);
+        }
+    }
+    walk(&f, 0, &mut order);
+    let dorder = decoded_order(dd);
+    if dorder.len() != order.len() {
+        out.push(format!("{id} C05 tree the document describes {} instances, {} were decoded", order.len(), dorder.len()));
+        return;
+    }
+    let pos: HashMap<u64, usize> = order.iter().enumerate().map(|(i, l)| (*l, i)).collect();
+    let node: HashMap<u64, &Node> = f.nodes.iter().map(|n| (n.label, n)).collect();
+    let syn: HashMap<Ref, u64> = (1..=(f.nodes.len() as u64 + 64)).map(|l| (val::synthetic_ref(l), l)).collect();
+    let mut exp = Vec::new();
+    for l in &order {
+        let n = node[l];
+        let mut props: BTreeMap<String, Option<Variant>> = BTreeMap::new();
+        for (k, v) in &n.props {
+            let known = rbx_xml::verif::find_canonical_property_descriptor(&n.class, k, db()).is_some();
+            if !known && dec == "IgnoreUnknown" {
+                continue;
+            }
+            let v2 = match v {
+                Variant::Ref(r) => Variant::Ref(syn.get(r).and_then(|t| pos.get(t)).map(|p| dorder[*p]).unwrap_or_else(Ref::none)),
+                Variant::Tags(t) if !known => Variant::BinaryString(t.encode().into()),
+                Variant::BrickColor(b) if !known => Variant::Int32(*b as u16 as i32),
+                other => other.clone(),
+            };
+            props.insert(k.clone(), Some(v2));
+        }
+        exp.push(ExpNode { parent: if n.parent == 0 { 0 } else { pos[&n.parent] as u64 + 1 }, class: n.class.clone(), name: Some(n.name.clone()), name_key: "name", props });
+    }
+    let before = out.len();
+    cmp_dom(id, "C05", &exp, dd, &dorder, out);
+    // classify the failures that belong to documented discrepancies
+    for l in out[before..].iter_mut() {
+        if l.contains(" prop-value ") && l.contains(" UId ") {
+            *l = l.replacen(" prop-value ", " uniqueid-rotation ", 1);
+        }
+    }
 }
